@@ -421,6 +421,48 @@ Section AnyOrder.
         inversion Tsim as [|x cc xs ls' Sx _ E1 E2]. destruct Sx as [A _]. rewrite A. symmetry. exact Eb0.
       - destruct (hdr_title r c b0) as [T1 [T2 T3]]. repeat split; auto. intros kv I. apply hdr_misc. exact I.
     Qed.
+    (* the same file, described for the reader's guards (Proofs/BMSWriteGuardsProofs.v): its note lines, its tempo
+       objects in text order, and the time-ordered script they sort to *)
+    Theorem any_written_facts (r : Q -> text) :
+      exists ls tempos Ts,
+        bms_write tbl lay dflt c = Some (header_lines c b0 ++ [WText []] ++ map WText ls)
+        /\ write_note_lines (map (rn_row lay) ALL ++ bp_rows_any) = Some ls
+        /\ Forall row_wf (map (rn_row lay) ALL ++ bp_rows_any)
+        /\ table_of S_BPM (headers_of (map (render_with r) (header_lines c b0 ++ [WText []] ++ map WText ls))) = ex_table c
+        /\ flat_map objs_of_line (map (render_with r) (header_lines c b0 ++ [WText []] ++ map WText ls)) = flat_map objs_of_line ls
+        /\ tempo_objs (ex_table c) (flat_map objs_of_line ls) = Some tempos /\ Permutation tempos Ts
+        /\ (forall bpm0, script_of bpm0 tempos = Ts) /\ Forall2 sim Ts l.
+    Proof.
+      destruct any_note_lines as [ls [Enl [Pobjs Fdata]]]. exists ls.
+      pose proof p_len as Ln. change p with (w_bpms c) in Ln.
+      pose proof (wd_misc _ _ _ _ _ _ _ _ _ _ _ _ D) as Hmisc. change (w_misc cs) with (w_misc c) in Hmisc.
+      assert (Hsk : Forall (fun kv : text * text => is_b36_pair (fst kv) = true) (w_samples c)).
+      { pose proof (wd_smp _ _ _ _ _ _ _ _ _ _ _ _ D) as F. eapply Forall_impl; [|exact F]. intros kv K. apply (id_ok_facts _ _ K). }
+      assert (Ew : bms_write tbl lay dflt c = Some (header_lines c b0 ++ [WText []] ++ map WText ls)).
+      { unfold bms_write, bms_write_with. rewrite (write_header_eq c b0 rest0 Ep Ln).
+        - fold (write_rows tbl lay dflt c). rewrite any_rows_written, Enl. reflexivity.
+        - intro E. destruct HLN as [B _]. change (w_lnobj c) with (w_lnobj cs) in E. rewrite E in B. discriminate. }
+      destruct (written_header r c b0 Ln (proj1 HLN) Hmisc Hsk) as [EH0 EO0].
+      set (lines := map (render_with r) (header_lines c b0 ++ [WText []] ++ map WText ls)).
+      assert (El : lines = map (render_with r) (header_lines c b0) ++ [] :: ls).
+      { unfold lines. rewrite !map_app, map_map. cbn [map render_with app]. rewrite map_id. reflexivity. }
+      assert (EH : headers_of lines = hdr_table r c b0).
+      { rewrite El, headers_of_app, EH0. change ([] :: ls) with ([[]] ++ ls). rewrite headers_of_app, (headers_of_data ls Fdata).
+        cbn. rewrite app_nil_r. reflexivity. }
+      assert (EO : flat_map objs_of_line lines = flat_map objs_of_line ls).
+      { rewrite El, flat_map_app, EO0. reflexivity. }
+      destruct SCR as [Ts [PTs [Escr [_ [_ [Tsim _]]]]]].
+      assert (Et : exists tempos, tempo_objs (ex_table c) (flat_map objs_of_line ls) = Some tempos /\ Permutation tempos (T0 c sb)).
+      { assert (E0 : tempo_objs (ex_table c) (map (rn_obj lay) ALL ++ XB c sb) = Some (T0 c sb)).
+        { rewrite (tempo_objs_app_none _ _ _ any_note_tempo). apply (any_tempo_objs_xb c l S sb Ln p_3f Hsb). }
+        destruct (tempo_objs_perm _ _ _ (Permutation_sym Pobjs) _ E0) as [tp [E1 P1]]. exists tp. split; [exact E1|apply Permutation_sym; exact P1]. }
+      destruct Et as [tempos [Etp Ptp]]. exists tempos, Ts.
+      split; [exact Ew|]. split; [exact Enl|]. split.
+      { apply Forall_app. split; [|exact any_bp_wf]. apply Forall_forall. intros rw I. apply in_map_iff in I.
+        destruct I as [n [<- In']]. apply (c_row_wf tbl Hok _ _ _ _ _ _ _ _ _ _ _ D n In'). }
+      split; [fold lines; rewrite EH; apply (hdr_ext r c b0 Hmisc)|]. split; [exact EO|]. split; [exact Etp|].
+      split; [eapply Permutation_trans; eassumption|]. split; [intro bpm0; apply (Escr bpm0 tempos Ptp)|exact Tsim].
+    Qed.
   End WithSb.
 End AnyOrder.
 
